@@ -346,6 +346,8 @@ class Gen:
             return {"$k": "Event", "ref": self.ref(), "id": None,
                     "ts": BASE_US + rng.randint(0, grid) * MS, "dur": rng.choice(durs) * MS,
                     "data": copy.deepcopy(rng.choice(data_pool))}
+        if ty == "JV":
+            return copy.deepcopy(rng.choice(self.scope.get("jvs", [1, 2, "x", "y", [1, 2], None])))
         if ty in ("float", "Seconds"):
             return rng.choice(self.scope.get("floats", [0, 0.001, 0.002, 0.003, 0.0015, 1.0]))
         if ty == "int":
